@@ -20,6 +20,7 @@ tokens) and that `ndarray.tolist()` / `np.array(list, dtype)` are inverse are th
 -/
 import Alos2.Proofs.Codec
 import Alos2.Proofs.Bridge
+import Alos2.Proofs.BridgeTotal
 import Alos2.Props.C03
 
 namespace Alos2.C08
@@ -42,11 +43,27 @@ theorem reader_group_round_trip (fr : FloatRepr) (root : String) (file : Bytes) 
   have hdom := open_image_in_domain fr root file name rpc gname g cg h hb header recs hr hn hk hd
   exact ⟨hdom, Alos2.decode_encode cg hdom r'⟩
 
+/-- … and the group CAN always be seen that way (`bridge_total`: the record layouts fix the NumPy kind of every per-line
+    column and make every attribute JSON-able), so no hypothesis about the bridge is left: EVERY image file that the reader
+    opens, with at least one line record, all of one kind, and instants inside 1970 … 2262, yields a group that the JSON index
+    reproduces exactly -/
+theorem reader_group_cacheable (fr : FloatRepr) (root : String) (file : Bytes) (name : String) (rpc : Nat)
+    (gname : String) (g : ImageGroup)
+    (h : openImageFile file name rpc = .ok (gname, g))
+    (header : Val) (recs : List Val) (hr : readImageRecords file rpc = .ok (header, recs)) (hn : 0 < recs.length)
+    (hk : (∀ r ∈ recs, IsLineRecord Gen.processedDataRecord r) ∨ (∀ r ∈ recs, IsLineRecord Gen.signalDataRecord r))
+    (hd : DatesInRange g = true) :
+    ∃ cg, bridge fr root name gname g = some cg ∧ cg.InDomain domainFuel = true ∧
+      ∀ r', decodeDoc r' (encodeDoc cg) = .ok (cg.withRpc r') := by
+  obtain ⟨cg, hb⟩ := bridge_total fr root file name rpc gname g h header recs hr hn hk hd
+  have hdom := open_image_in_domain fr root file name rpc gname g cg h hb header recs hr hn hk (datesInRange_datesOK g hd)
+  exact ⟨cg, hb, hdom, fun r' => Alos2.decode_encode cg hdom r'⟩
+
 /-- non-vacuity of the computable hypotheses: the two-record witness image of C03 opens, its group can be bridged, its
     instants are after the epoch — and the bridged group is in the codec domain (kernel-evaluated) -/
 example :
     ((openImageFile C03.witnessImage "IMG-HH-ALOS2290760600-191011-WWDR1.5RUA" 1).toOption.map (fun r =>
-      (DatesOK r.2, (bridge ⟨id, fun t _ => t, fun v _ => toString v ++ ".0"⟩ "/root" "IMG-HH-ALOS2290760600-191011-WWDR1.5RUA" r.1 r.2).map
+      (DatesInRange r.2, (bridge ⟨id, fun t _ => t, fun v _ => toString v ++ ".0"⟩ "/root" "IMG-HH-ALOS2290760600-191011-WWDR1.5RUA" r.1 r.2).map
         (fun cg => cg.InDomain domainFuel)))) = some (true, some true) := by decide +kernel
 
 theorem tuple_tag (v : PyVal) (h : v.NoReservedTag = true) : postprocess (preprocess v) = v :=
